@@ -114,7 +114,7 @@ static int disasm_xtensa_le(
             i = (opcode >> 16) & 0xff;
             i = (int32_t)((int8_t)i);
             snprintf(instruction, length, "%s a%d, a%d, 0x%04x (offset=%d)",
-              table_xtensa[n].instr, at, as, address + 4 + i, i);
+              table_xtensa[n].instr, as, at, address + 4 + i, i);
             return 3;
           case XTENSA_OP_BRANCH_AS_B5_I8:
             x = (((opcode >> 12) & 1) << 4) | ((opcode >> 4) & 0xf);
@@ -605,7 +605,7 @@ static int disasm_xtensa_be(
             i = opcode & 0xff;
             i = (int32_t)((int8_t)i);
             snprintf(instruction, length, "%s a%d, a%d, 0x%04x (offset=%d)",
-              table_xtensa[n].instr, at, as, address + 4 + i, i);
+              table_xtensa[n].instr, as, at, address + 4 + i, i);
             return 3;
           case XTENSA_OP_BRANCH_AS_B5_I8:
             x = (((opcode >> 8) & 1) << 4) | ((opcode >> 16) & 0xf);
